@@ -1023,9 +1023,16 @@ def catPairs (nb : Option Int) (monoV : Val) : Except Err (List (Rat × Rat)) :=
     | .s false xs => if !(xs.all isPairItem) then ve else mapE (catPair nb) xs
     | _ => ve
 
+/-- `num_buckets is not None and (not isinstance(num_buckets, numbers.Integral) or num_buckets < 1)`
+(fix 76984f9 and its follow-up: a non-integer `num_buckets` is rejected as well) -/
+def nbFew (v : Val) : Except Err Bool :=
+  match v with
+  | .a .none => .ok false
+  | .a (.int k) => .ok (decide (k < 1))
+  | _ => .ok true
+
 def verifyCategorical (nbV omin omax monoV : Val) : Except Err CatCfg := do
-  -- fix 76984f9: `num_buckets is not None and num_buckets < 1`
-  let few ← lessThan nbV 1
+  let few ← nbFew nbV
   if few then ve else
   let lo ← boundOf omin
   let hi ← boundOf omax
